@@ -235,10 +235,18 @@ static void vu_use_pubkey(jout *o, const secp256k1_pubkey *pk) {
     VU_USE(o, "cmp", secp256k1_ec_pubkey_cmp(CTX, pk, &F.pk1));
     srt[0] = &F.pk2; srt[1] = pk; srt[2] = &F.pk1; VU_USE(o, "sort", secp256k1_ec_pubkey_sort(CTX, srt, 3));
     VU_USE(o, "xonly", secp256k1_xonly_pubkey_from_pubkey(CTX, &xo, &par, pk));
+    VU_USE(o, "xonly_np", secp256k1_xonly_pubkey_from_pubkey(CTX, &xo, NULL, pk));
     VU_USE(o, "ecdsa", secp256k1_ecdsa_verify(CTX, &F.esig, F.msg, pk));
     VU_USE(o, "ecdh", secp256k1_ecdh(CTX, o32, pk, F.sk1, NULL, NULL)); vu_dg(o32, 32);
     VU_USE(o, "ellenc", secp256k1_ellswift_encode(CTX, o64, pk, F.aux)); vu_dg(o64, 64);
-    two[0] = pk; two[1] = &F.pk2; VU_USE(o, "magg", secp256k1_musig_pubkey_agg(CTX, &xo, &cache, two, 2));
+    two[0] = pk; two[1] = &F.pk2;
+    VU_USE(o, "magg_nopk", secp256k1_musig_pubkey_agg(CTX, NULL, &cache, two, 2));
+    VU_USE(o, "magg_nocache", secp256k1_musig_pubkey_agg(CTX, &xo, NULL, two, 2));
+    VU_USE(o, "magg_none", secp256k1_musig_pubkey_agg(CTX, NULL, NULL, two, 2));
+    { int mr; VU_STAGE = "magg"; mr = secp256k1_musig_pubkey_agg(CTX, &xo, &cache, two, 2); jo_int(o, "magg", mr); vu_dg_int(mr);
+      if (mr) { VU_USE(o, "mget", secp256k1_musig_pubkey_get(CTX, t, &cache));
+                VU_USE(o, "mtweak_xo", secp256k1_musig_pubkey_xonly_tweak_add(CTX, t, &cache, F.t32));
+                VU_USE(o, "mtweak_ec_null", secp256k1_musig_pubkey_ec_tweak_add(CTX, NULL, &cache, F.t32)); } }
     memcpy(rnd, F.aux, 32); VU_USE(o, "mngen", secp256k1_musig_nonce_gen(CTX, &sn, &pn, rnd, NULL, pk, F.msg, NULL, NULL));
     VU_USE(o, "mpsv", secp256k1_musig_partial_sig_verify(CTX, &F.ps1, &F.pn1, pk, &F.cache, &F.sess));
     VU_USE(o, "mnproc", secp256k1_musig_nonce_process(CTX, &sess, &F.an, F.msg, &F.cache, pk));
@@ -269,6 +277,7 @@ static void vu_use_sig(jout *o, const secp256k1_ecdsa_signature *sig) {
     l = 7; VU_USE(o, "der_short", secp256k1_ecdsa_signature_serialize_der(CTX, shortb, &l, sig));
     VU_USE(o, "compact", secp256k1_ecdsa_signature_serialize_compact(CTX, c64, sig)); vu_dg(c64, 64);
     VU_USE(o, "norm", secp256k1_ecdsa_signature_normalize(CTX, n, sig));
+    VU_USE(o, "norm_null", secp256k1_ecdsa_signature_normalize(CTX, NULL, sig));
     VU_USE(o, "verify", secp256k1_ecdsa_verify(CTX, sig, F.msg, &F.pk1));
     VU_USE(o, "adrec", secp256k1_ecdsa_adaptor_recover(CTX, o32, sig, F.adaptor, &F.pk2));
     VU_USE(o, "s2c", secp256k1_ecdsa_s2c_verify_commit(CTX, sig, F.s2cdata, &F.opening));
@@ -307,7 +316,9 @@ static void op_USeckey(const jv *in, jout *out) {
     jo_int(out, "ret", ret); if (!ret) VU_REJ(out);
     vu_use_begin(out);
     VU_USE(out, "create", secp256k1_ec_pubkey_create(CTX, &pk, d));
-    VU_USE(out, "keypair", secp256k1_keypair_create(CTX, &kp, d));
+    { int kr; secp256k1_xonly_pubkey kx; int kpar; VU_STAGE = "keypair"; kr = secp256k1_keypair_create(CTX, &kp, d); jo_int(out, "keypair", kr); vu_dg_int(kr);
+      if (kr) { VU_USE(out, "kp_xonly", secp256k1_keypair_xonly_pub(CTX, &kx, &kpar, &kp)); VU_USE(out, "kp_xonly_np", secp256k1_keypair_xonly_pub(CTX, &kx, NULL, &kp));
+                VU_USE(out, "kp_pub", secp256k1_keypair_pub(CTX, &pk, &kp)); VU_USE(out, "kp_sec", secp256k1_keypair_sec(CTX, t, &kp)); } }
     memcpy(t, d, 32); VU_USE(out, "negate", secp256k1_ec_seckey_negate(CTX, t));
     memcpy(t, d, 32); VU_USE(out, "sk_tadd", secp256k1_ec_seckey_tweak_add(CTX, t, F.t32));
     memcpy(t, F.sk1, 32); VU_USE(out, "tadd_by", secp256k1_ec_seckey_tweak_add(CTX, t, d));
@@ -370,6 +381,7 @@ static void op_USchnorr(const jv *in, jout *out) {
     if (vu_opt(in, "pk", pkb, 32)) { if (!secp256k1_xonly_pubkey_parse(CTX, &xo, pkb)) { fprintf(stderr, "vh: context pk invalid\n"); exit(3); } } else xo = F.xo1;
     ret = VU_CALL("schnorrsig_verify", secp256k1_schnorrsig_verify(CTX, d, m, (size_t)mlen, &xo));
     jo_int(out, "ret", ret); if (!ret) VU_REJ(out);
+    vu_use_begin(out); VU_USE(out, "null_msg0", secp256k1_schnorrsig_verify(CTX, d, NULL, 0, &xo)); vu_use_end(out);
     vu_release(m); vu_release(d); VU_END(out);
 }
 
@@ -389,15 +401,31 @@ static void vu_ctx_pk(const jv *in, const char *key, secp256k1_pubkey *pk, const
 /* info / verify / rewind of one proof against a commitment and generator; results go into the use map under prefix-less names */
 static void vu_rangeproof_calls(jout *o, const char *pfx, const unsigned char *proof, size_t plen, const secp256k1_pedersen_commitment *c, const secp256k1_generator *g,
                                 const unsigned char *extra, size_t extralen, const unsigned char *nonce, long mcap) {
-    uint64_t mn = 0, mx = 0, val = 0; int e = 0, m = 0; static char name[32]; size_t mlen = mcap > 0 ? (size_t)mcap : 0;
+    uint64_t mn = 0, mx = 0, val = 0; int e = 0, m = 0, vret; static char name[32]; size_t mlen = mcap > 0 ? (size_t)mcap : 0;
     unsigned char *blind = (unsigned char*)vu_alloc(32), *msg = (unsigned char*)vu_alloc(mlen);
     snprintf(name, sizeof(name), "%sinfo", pfx); VU_USE(o, name, secp256k1_rangeproof_info(CTX, &e, &m, &mn, &mx, proof, plen));
     mn = mx = 0;
-    snprintf(name, sizeof(name), "%sverify", pfx); VU_USE(o, name, secp256k1_rangeproof_verify(CTX, &mn, &mx, c, proof, plen, extra, extralen, g));
+    snprintf(name, sizeof(name), "%sverify", pfx); VU_STAGE = name; vret = secp256k1_rangeproof_verify(CTX, &mn, &mx, c, proof, plen, extra, extralen, g);
+    jo_int(o, name, vret); vu_dg_int(vret);
     mn = mx = 0;
     snprintf(name, sizeof(name), "%srewind", pfx);
     if (mcap < 0) VU_USE(o, name, secp256k1_rangeproof_rewind(CTX, blind, &val, NULL, NULL, nonce, &mn, &mx, c, proof, plen, extra, extralen, g));
     else { VU_USE(o, name, secp256k1_rangeproof_rewind(CTX, blind, &val, msg, &mlen, nonce, &mn, &mx, c, proof, plen, extra, extralen, g)); vu_dg_int((long long)mlen); }
+    if (vret) {
+        /* the proof passes ring verification: every legal combination of the optional (NULL-able) outputs of rewind, with the
+         * prover's nonce ("r") and with a different one ("w"); message_out/outlen: both ("ml"), buffer only ("m"), neither ("0");
+         * blind_out/value_out given ("bv") or NULL ("00") */
+        static char vn[12][32]; int ni, oi, bi, k = 0; unsigned char wn[32];
+        memcpy(wn, nonce, 32); wn[0] ^= 1;
+        for (ni = 0; ni < 2; ni++) for (oi = 0; oi < 3; oi++) for (bi = 0; bi < 2; bi++) {
+            unsigned char *m2 = (unsigned char*)vu_alloc(64); size_t l2 = 64; uint64_t v2 = 0;
+            snprintf(vn[k], sizeof(vn[k]), "%srw_%s_%s_%s", pfx, ni ? "w" : "r", oi == 0 ? "ml" : oi == 1 ? "m" : "0", bi ? "00" : "bv");
+            mn = mx = 0;
+            VU_USE(o, vn[k], secp256k1_rangeproof_rewind(CTX, bi ? NULL : blind, bi ? NULL : &v2, oi == 2 ? NULL : m2, oi == 0 ? &l2 : NULL,
+                                                         ni ? wn : nonce, &mn, &mx, c, proof, plen, extra, extralen, g));
+            vu_release(m2); k++;
+        }
+    }
     vu_release(blind); vu_release(msg);
 }
 static void op_UCommit(const jv *in, jout *out) {
@@ -703,14 +731,16 @@ static void op_UAggVerify(const jv *in, jout *out) {
     }
     ret = VU_CALL("schnorrsig_aggverify", secp256k1_schnorrsig_aggverify(CTX, pks, msgs, n, d, (size_t)len));
     jo_int(out, "ret", ret); if (!ret) VU_REJ(out);
+    vu_use_begin(out); VU_USE(out, "null0", secp256k1_schnorrsig_aggverify(CTX, NULL, NULL, 0, d, (size_t)len)); vu_use_end(out);
     vu_release(pks); vu_release(msgs); vu_release(pkb); vu_release(d); VU_END(out);
 }
 /* data = contents AND capacity of the aggregate buffer (*aggsig_len = len); nb / nn = n_before / n_new as 8-byte big-endian values.
  * Key/message arrays have exactly min(n, 264) entries, the signature array min(n_new, 64).  n_before + n_new overflowing size_t is documented illegal use. */
 static void op_UIncAgg(const jv *in, jout *out) {
-    long len; unsigned char *d, *msgs, *sigs; secp256k1_xonly_pubkey *pks; size_t nb, nn, n, na, ns, l, i; int ret; VU_BEGIN("UIncAgg");
+    long len; unsigned char *d, *d0, *msgs, *sigs; secp256k1_xonly_pubkey *pks; size_t nb, nn, n, na, ns, l, i; int ret; VU_BEGIN("UIncAgg");
     vu_fix_keys(); vu_m0 = vu_live();
     d = vu_in(in, "data", &len); if (len < 0) { fprintf(stderr, "vh: data missing\n"); exit(3); }
+    d0 = (unsigned char*)vu_copy(d, (size_t)len);      /* untouched copy of the input for the zero-count call */
     nb = (size_t)vu_u64(in, "nb", 0); nn = (size_t)vu_u64(in, "nn", 0); n = nb + nn;
     na = n < VU_NKEYS ? n : VU_NKEYS; ns = nn < 64 ? nn : 64;
     /* the arrays are complete whenever the library's own length check (aggsig_len / 32 - 1 >= n) can pass */
@@ -721,8 +751,11 @@ static void op_UIncAgg(const jv *in, jout *out) {
     l = (size_t)len;
     ret = VU_CALL("schnorrsig_inc_aggregate", secp256k1_schnorrsig_inc_aggregate(CTX, d, &l, pks, msgs, sigs, nb, nn));
     jo_int(out, "ret", ret); if (!ret) VU_REJ(out);
-    if (ret) { jo_int(out, "newlen", (long long)l); vu_dg_int((long long)l); if (l <= (size_t)len) vu_dg(d, l);
-               vu_use_begin(out); VU_USE(out, "aggver", secp256k1_schnorrsig_aggverify(CTX, pks, msgs, n, d, l <= (size_t)len ? l : (size_t)len)); vu_use_end(out); }
+    if (ret) { jo_int(out, "newlen", (long long)l); vu_dg_int((long long)l); if (l <= (size_t)len) vu_dg(d, l); }
+    vu_use_begin(out);
+    if (ret) VU_USE(out, "aggver", secp256k1_schnorrsig_aggverify(CTX, pks, msgs, n, d, l <= (size_t)len ? l : (size_t)len));
+    { size_t l2 = (size_t)len; VU_USE(out, "null0", secp256k1_schnorrsig_inc_aggregate(CTX, d0, &l2, NULL, NULL, NULL, 0, 0)); vu_release(d0); }
+    vu_use_end(out);
     vu_release(pks); vu_release(msgs); vu_release(sigs); vu_release(d); VU_END(out);
 }
 
